@@ -100,6 +100,10 @@ class SMMapSetMeta:
             elif s[0] == "#FGCHANGES":
                 self.fg_changes = s[1].strip()
 
+        # A file without #OFFSET starts at 0
+        if self.offset is None:
+            self.offset = 0.0
+
         return bcs_s, stops
 
     @staticmethod
